@@ -16,3 +16,12 @@ mk("b-c02-meta-nop-unannotated", {"C02": "silent", "C06": "silent"}, [(B + "opti
    "            Operation::A2B => {\n                let mut node = simple_node.clone();",
    "            Operation::NOP if node.get_annotations()?.is_empty() => {\n                meta_deps[0].as_ref().map(|meta_dep| ProxyObjectWithNode {\n                    meta: meta_dep.meta.clone(),\n                    node: simple_node.clone(),\n                })\n            }\n            Operation::A2B => {\n                let mut node = simple_node.clone();")],
    "benign twin of C02r2-1: getters see through a NOP only when it carries no annotation (no transfer is bypassed)", kind="benign")
+mk("b-c08-manual-eq-all", {"C08": "silent"}, [(B + "ops/fixed_precision/fixed_precision_config.rs",
+   "#[derive(Clone, Debug, Eq, PartialEq, Hash, Serialize, Deserialize, Copy)]", "#[derive(Clone, Debug, Eq, Hash, Serialize, Deserialize, Copy)]"),
+   (B + "ops/fixed_precision/fixed_precision_config.rs", "impl Default for FixedPrecisionConfig {",
+    "#[allow(clippy::derived_hash_with_manual_eq)]\nimpl PartialEq for FixedPrecisionConfig {\n    fn eq(&self, other: &Self) -> bool {\n        self.fractional_bits == other.fractional_bits && self.debug == other.debug\n    }\n}\n\nimpl Default for FixedPrecisionConfig {")],
+   "benign twin of C08r2-2: manual PartialEq that still compares both fields", kind="benign")
+mk("b-c08-named-helper", {"C08": "silent"}, [(B + "ops/utils.rs",
+   "    let divisor = g.input(t)?;\n    let divisor_bits = pull_out_bits(divisor.a2b()?)?;\n    let cum_or = cumulative_or(divisor_bits, denominator_cap_2k)?;",
+   "    g.set_name(&format!(\n        \"__InverseInitialApproximation(cap=2**{denominator_cap_2k})::<{t}>\"\n    ))?;\n    let divisor = g.input(t)?;\n    let divisor_bits = pull_out_bits(divisor.a2b()?)?;\n    let cum_or = cumulative_or(divisor_bits, denominator_cap_2k)?;")],
+   "benign half of C08r2-1: the helper graph gets a name, but gluing still drops names, so nothing collides", kind="benign")
